@@ -77,7 +77,7 @@ func c05sites(text string) []c05site {
 			out = append(out, s)
 		}
 		// label definition.
-		if m := regexp.MustCompile(`^([-a-zA-Z$._0-9]+):\s*$`).FindStringSubmatch(strings.TrimRight(line, "\n")); m != nil {
+		if m := regexp.MustCompile(`^([-a-zA-Z$._0-9]+|"[^"]*"):\s*$`).FindStringSubmatch(strings.TrimRight(line, "\n")); m != nil {
 			out = append(out, c05site{kind: "label", tok: "%" + m[1], start: off, end: off + len(m[1]) + 1, def: true})
 		}
 		off += len(line)
@@ -279,9 +279,9 @@ type c05case struct {
 
 func runC05(c *fw.Check) {
 	c.Level = "fault_enumeration"
-	bound := 1
+	bound := 2
 	if !c.Quick() {
-		bound = 2
+		bound = 3
 		c.SetBudget(45 * 60 * 1e9)
 	}
 	entries := gen.Catalogue()
